@@ -24,7 +24,7 @@ CHECKS = {
          'Decides for every function in Network/, Circuit/, SignalProcessing/, dump_load.py that no path writes to a parameter-owned object, mutable default, module global or (outside construction) self, and that no caching decorator exists; a built-in positive example must be reported on every run. Equality of results between histories is implied, not observed.', '4/C20'),
 }
 CHECKS.update({
- 'C01': ('index-space typing (abstract interpretation of the numpy assembly / read-back), incidence sign table and sign relations, E1 normal forms of current recovery',
+ 'C01': ('index-space typing of the normal forms of the numpy assembly / read-back, incidence sign tables by case analysis on the build terms, guards of the stored solution (fallback rule), E1 normal forms of current recovery',
          'Decides that every index, slice, product, stack and solve of the MNA path joins equal label spaces for every label set, that the system is laid out (N+V), the incidence sign conventions and their relations to the read-back signs, and the per-kind branch-current formulas. Exactness / uniqueness of the numeric solve is not decided.', '4/C01'),
  'C03': ('index-space typing over steady-state, state-space, transient and port code; terminal antisymmetry; no literal reference label',
          'Static form of renaming/permutation invariance: a position may depend on labels or listing order only through one map used on both sides; 280+ join obligations must hold for every label set (not just the suite\'s naming scheme). Floating-point summation order and the relation between two actual runs are not decided.', '4/C03'),
@@ -46,7 +46,7 @@ CHECKS.update({
          'Decides that every symbol class has a translator building the matching kind from the symbol\'s own quantities, the reversal rule on translators and classes, the degree conversion, and that every terminal coordinate goes through one rounding function and one equipotential map. Geometric invariance of actual drawings is not decided.', '4/C13'),
  'C14': ('E1 normal form of the value handed to each formatter (sign rule), formatter/unit/option pairing, label factories, constructor wiring, SI tables',
          'Decides for every adapter x quantity that the formatted value is (-1 if reverse else 1) x solution.get_Q(name) with the right unit and forwarded options, that draw_Q queries the name and direction it labels, and the constructor / declarative-kind wiring. The rendered text for actual numbers is not decided.', '4/C14'),
- 'C15': ('agreement of the repository\'s own tables (type strings, loader keys, constructor parameters, value keys, fields written/restored, handler table) and a symbolic save->load->translate fixed-point check',
+ 'C15': ('agreement of the repository\'s own tables, read off their evaluated VALUES (each loader entry applied to exactly the saved keys of its kind with a decidable TypeError; element record written vs element rebuilt; handler table) and a symbolic save->load->translate fixed-point check',
          'Decides that each loader key rebuilds the class of that type from value keys its component kind really writes, that written = restored fields, the handler / direction / placement tables, and that re-translating the rebuilt symbol reproduces every fed-back value for all flag combinations (four recorded genuine defects are reported as KNOWN-FINDING). Equality of the reloaded drawing is not decided.', '4/C15'),
  'C18': ('structural part only: SI prefix tables, exponent multiple of three by construction (E1), sign glyph guards, saturation tested first',
          'Decides only the table / structural clauses. The property\'s main clause -- half-unit accuracy of the digit string for every binary64 value -- is string arithmetic on run-time values and is NOT decided.', '4/C18'),
@@ -61,9 +61,9 @@ man = {
            'cd /repo && /venv/bin/python -m pytest -ra -q -p no:cacheprovider --timeout=900 --continue-on-collection-errors', 'source_commits': [], 'add_only': True},
  'engines': [
   {'name': 'E0 program model', 'path': 'cc/prog.py', 'serves_properties': ALL, 'kind_free_text': 'ast-based import/alias/class/table resolution'},
-  {'name': 'E1 terms', 'path': 'cc/terms.py', 'serves_properties': ['C01','C02','C04','C05','C06','C07','C08','C09','C13','C14','C16','C17','C18','C19'], 'kind_free_text': 'use-def expanded terms, ring normal form, guard decision trees, sign facts'},
+  {'name': 'E1 terms', 'path': 'cc/terms.py', 'serves_properties': ALL, 'kind_free_text': 'symbolic evaluation of the source to normal forms (never executed): use-def expanded terms, ring normal form, guard decision trees, sign facts, array build terms, block normal forms, decidable exceptions, evaluated module-level tables'},
   {'name': 'E2 paths', 'path': 'cc/paths.py', 'serves_properties': ['C19','C06','C18'], 'kind_free_text': 'structured path enumeration, must-pass-through'},
-  {'name': 'E4 index spaces', 'path': 'cc/spaces.py', 'serves_properties': ['C01','C03','C06','C10','C11','C12'], 'kind_free_text': 'abstract interpretation of numpy idioms with label spaces per axis'},
+  {'name': 'E4t index spaces', 'path': 'cc/spacet.py', 'serves_properties': ['C01','C03','C06','C10','C11','C12'], 'kind_free_text': 'type inference of label spaces per array axis on E1 normal forms (space algebra in cc/spaces.py; the older syntax-directed interpreter there is kept for comparison, VERIF_E4=ast)'},
   {'name': 'E1(nc) matrix normal forms', 'path': 'cc/ncalg.py', 'serves_properties': ['C10','C11'], 'kind_free_text': 'non-commutative normal forms with transposes / inverses'},
   {'name': 'E3 effects', 'path': 'cc/effects.py', 'serves_properties': ['C16','C17','C20'], 'kind_free_text': 'ownership/effect analysis with interprocedural summaries'},
  ],
